@@ -39,11 +39,11 @@ const PATHS: &[&str] = &["ads", "foo", "banner", "ads/foo", "x"];
 /// Tags carried ONLY by csp rules (c1, c2: blocking csp rules and csp exceptions; x1: csp exceptions
 /// only): no plain blocking rule of any generated list has them, so `tagged_filters_all` never
 /// mentions them.
-const CSP_ONLY_TAGS: &[&str] = &["c1", "c2"];
+const CSP_ONLY_TAGS: &[&str] = &["c1", "c2", "Strict"];
 const CSP_EXCEPTION_ONLY_TAG: &str = "x1";
 /// Every tag a rule can carry (gen::TAGS + the csp-only ones) + tags no rule carries.
-const TAG_UNIVERSE: &[&str] = &["t1", "t2", "t3", "c1", "c2", "x1", "zz", "T1", "", "t1 ", "nope"];
-const UNKNOWN_TAGS: &[&str] = &["zz", "T1", "", "t1 ", "nope"];
+const TAG_UNIVERSE: &[&str] = &["t1", "t2", "t3", "c1", "c2", "Strict", "x1", "zz", "T1", "", "t1 ", "nope", "strict", "STRICT"];
+const UNKNOWN_TAGS: &[&str] = &["zz", "T1", "", "t1 ", "nope", "strict", "STRICT"];
 
 /// A tag for a csp rule: one of the shared tags, or one that only csp rules carry.
 fn csp_tag(r: &mut Rng, exception: bool) -> &'static str {
@@ -468,7 +468,8 @@ fn eval(c: &Case) -> Option<Outcome> {
         if f.is_badfilter() || bad_ids.contains(&f.get_id()) {
             continue;
         }
-        let tag = adblock::verif_hooks::filter_tag(f).map(|s| s.to_string());
+        // the tag as written in the rule (not as stored by the parser)
+        let tag = option_value_last(line, &["tag"]);
         let mut rm = RegexManager::default();
         if f.matches(&req, &mut rm) {
             // the directive is read off the rule text, not off the parsed rule
